@@ -88,6 +88,7 @@ template <class T> static void queries (const Frustum<T>& F, Gen<T>& g, int prog
     {
         T zn = T (k) / T (4);
         long zmin = (k % 2) ? -100 : 0, zmax = (k % 2) ? 923 : 65535;
+        if (k == 3) { zmin = -1073741824L; zmax = 2147483647L; }           // a range wider than INT_MAX (the z arguments are long)
         T d = F.normalizedZToDepth (zn);
         long Z = F.DepthToZ (d, zmin, zmax);
         T d2 = F.ZToDepth (Z, zmin, zmax);
